@@ -48,7 +48,7 @@ def job_tomo(which, L, seed=0, timeout_s=10.0):
 
 def jobs(tier, seed):
     from . import C20_all as C
-    t = 10.0 if tier == "quick" else 60.0
+    t = 30.0 if tier == "quick" else 90.0
     js = []
     for cls in ["ok"] + list(range(len(C.MALFORMED))):
         for od in (False, True):
